@@ -13,29 +13,45 @@ from vlib import core, pyvc
 from contracts import scope
 LEVEL = 'proof'
 
-def _native_scopes(outputs, n_tensors):
+_INST = {}
+def _instances():
+    """one real Calibrator and one real ParamsGenerator (fixture model), reused across calls: a scope function that keeps state between calls is then exercised with history"""
+    if not _INST:
+        core.stub_package()
+        cal = importlib.import_module('ai_edge_quantizer.calibrator'); pg = importlib.import_module('ai_edge_quantizer.params_generator')
+        path = os.path.join(core.PKG, 'tests/models/single_fc.tflite')
+        try: _INST['cal'] = cal.Calibrator(path)
+        except Exception: _INST['cal'] = None
+        try: _INST['pg'] = pg.ParamsGenerator(path)
+        except Exception: _INST['pg'] = None
+    return _INST['cal'], _INST['pg']
+def _native_scopes(outputs, n_tensors, prefix='n'):
     core.stub_package()
-    import types
     cal = importlib.import_module('ai_edge_quantizer.calibrator'); pg = importlib.import_module('ai_edge_quantizer.params_generator')
     from ai_edge_litert import schema_py_generated as schema
     tensors = []
     for t in range(n_tensors):
-        T = schema.TensorT(); T.name = f'n{t}'.encode(); tensors.append(T)
+        T = schema.TensorT(); T.name = f'{prefix}{t}'.encode(); tensors.append(T)
     op = schema.OperatorT(); op.outputs = np.array(outputs, dtype=np.int32)
-    a = cal.Calibrator._get_op_scope(None, op, tensors); b = pg.ParamsGenerator._get_op_scope(None, op, tensors)
-    want = ''.join(f'n{t};' for t in outputs if t != -1)
+    ci, pi = _instances()
+    a = cal.Calibrator._get_op_scope(ci, op, tensors); b = pg.ParamsGenerator._get_op_scope(pi, op, tensors)
+    want = ''.join(f'{prefix}{t};' for t in outputs if t != -1)
     return a, b, want
-def replay_scope(mv, label=None):
+def replay_scope(mv, label=None, prefix='n'):
     outs = [o for o in mv['outputs']] or [0]; nt = max(mv['n_tensors'], max(outs) + 1, 1)
-    a, b, want = _native_scopes(outs, nt)
+    try: a, b, want = _native_scopes(outs, nt, prefix)
+    except Exception as e: return dict(confirmed=False, inputs=dict(outputs=outs, n_tensors=nt), note=f'native call failed: {type(e).__name__}: {e}')
     bad = []
     if a != b: bad.append(f'calibration scope {a!r} != quantization scope {b!r}')
     if b != want or a != want: bad.append(f'scope differs from join(names, ";") = {want!r}')
-    return dict(confirmed=bool(bad), inputs=dict(outputs=outs, n_tensors=nt), violated=bad, observed=dict(calibrator=a, params_generator=b))
+    return dict(confirmed=bool(bad), inputs=dict(outputs=outs, n_tensors=nt, names_prefix=prefix, note='calls are made on ONE Calibrator / ParamsGenerator instance, in the order of the search: n-names first, then m-names (another subgraph with the same tensor indices)'),
+                violated=bad, observed=dict(calibrator=a, params_generator=b))
 def search_scope(label):
-    for outs in ([0], [0, 1], [-1, 0], [1, -1, 0], []):
-        r = replay_scope(dict(outputs=outs, n_tensors=3))
-        if r['confirmed']: return r
+    # the same output indices with two different tensor lists (two subgraphs number their tensors independently) on the same instances
+    for prefix in ('n', 'm'):
+        for outs in ([0], [0, 1], [-1, 0], [1, -1, 0], []):
+            r = replay_scope(dict(outputs=outs, n_tensors=3), prefix=prefix)
+            if r['confirmed']: return r
     return None
 
 # ---------------------------------------------------------------------------------------------- AST call-site obligations
